@@ -233,7 +233,7 @@ theorem pidInit_m1 {g : Adj} (hs : Sym g) {paths : List Path} (hp : ∀ p ∈ pa
   unfold pidInit at h
   refine foldlM_pidInitStep_m1 hs _ _ _ ?_ h (fun _ hm => by simp at hm)
   intro c hc
-  exact hp c ((List.mergeSort_perm _ _).mem_iff.1 hc)
+  exact hp c ((isort_perm _ _).mem_iff.1 hc)
 
 /-! ## the triple loop -/
 
